@@ -137,8 +137,10 @@ def rule_newline_neutral(chk: Check, ix: Index):
     sets = [n for n in ast.walk(ix.modules[repo.TOKENIZE]) if isinstance(n, ast.Assign) and norm_stmt(n.targets[0]) == "state.continued"]
     vals = sorted(norm_stmt(n.value) for n in sets)
     chk.count("N4-newline-neutral")
-    chk.require(vals == ["False", "True"], "N4-newline-neutral", "state.continued:set-reset", tk.where,
-                f"the continuation flag must have exactly one set and one reset (found {vals})")
+    chk.require(vals.count("True") == 1 and vals.count("False") >= 1 and set(vals) <= {"True", "False"}, "N4-newline-neutral",
+                "state.continued:set-reset", tk.where,
+                f"the continuation flag is set in one place (the backslash-newline lexeme) and reset to False wherever a continued line is "
+                f"taken up — that every such branch resets it is K6's `continued-flag-consumed` (found {vals})")
     # bracket depth: +1 / -1 only, paired with opener / closer tests
     writes = [norm_stmt(n) for n in ast.walk(ix.modules[repo.TOKENIZE]) if isinstance(n, ast.AugAssign) and norm_stmt(n.target) == "state.parenlev"]
     chk.count("N4-newline-neutral")
